@@ -1,5 +1,6 @@
 import Ibx.Gen.FileStore
 import Ibx.Model.FileStore
+import Ibx.Model.FileIds
 /-
   T1 tie for the file-store model (Ibx/Model/FileStore.lean).  Ibx/Gen/FileStore.lean is re-read from
   pkg/storage/file/{fstore,mbox,fmessage}.go by harness/cmd/extract/filestore.go on every run.  Every fact is STRUCTURAL:
@@ -49,6 +50,17 @@ import Ibx.Model.FileStore
         Props/C10 `skipExisting_not_present`, counter-witness for the variant "none":
         `ids_repeat_when_generator_restarts_fails`).  The id of a DELETED message can still come back after a
         restart within the same second (F-10b, open): that part stays the explicit generator hypothesis.
+  * The generator and the re-draw loop are INSIDE the model (Ibx/Model/FileIds.lean; theorems Props/C07Ids.lean:
+    `new_id_not_listed`, `redraw_terminates_within`, `existing_raw_untouched`, `generated_delivery_refines_spec`):
+      - `hasIDSearch` selects the variant of `hasID` the theorems are read for: "linearScan" (the loop over the whole
+        loaded list with equality on the id field, or slices.ContainsFunc / IndexFunc with that equality) is the
+        variant `new_id_not_listed` holds for; "binarySearchAssumingSorted" (sort.Search, slices.BinarySearch, …) is
+        the variant with the counter-witness `binary_search_delivery_overwrites` — an index is NOT sorted by id once the
+        counter has wrapped or restarted within a second; "unknown" selects nothing.
+      - `redrawLoop`: the loop condition asks the constructor's own receiver (the mailbox whose index was just
+        loaded) about the id variable; the body re-draws only through the generator, without break / return; the
+        `Message{… Fid: id …}` returned carries the id the loop exited with; the index is loaded before the first draw;
+        there is no other loop after the first draw — `Model.FileIds.newId` is that loop.
 -/
 namespace Ibx.Tie.FileStore
 open Ibx.Model.FileStore
@@ -70,5 +82,17 @@ theorem capLoopShape_tie : Gen.FileStore.capLoopShape = "evictFirstBeforeAdd" :=
 theorem idGenerator_tie : Gen.FileStore.idGenerator = "secondPlusCounterMod10000" := by decide
 
 theorem fileIdCollisionCheck_tie : Gen.FileStore.fileIdCollisionCheck = "skipsExisting" := by decide
+
+/-- the variant of `hasID` (Model/FileIds.lean) a value of the regenerated fact selects -/
+def searchOfFact (s : String) : Option Ibx.Model.FileIds.Search :=
+  if s = "linearScan" then some .linearScan
+  else if s = "binarySearchAssumingSorted" then some .binarySearchAssumingSorted
+  else none
+
+/-- the code's `hasID` is the linear scan: the variant `Props.C07Ids.new_id_not_listed` is about -/
+theorem hasIDSearch_tie : searchOfFact Gen.FileStore.hasIDSearch = some .linearScan := by decide
+theorem redrawLoop_tie : Gen.FileStore.redrawLoop =
+    [("condIsHasIDOfReceiver", true), ("bodyRedrawsThroughGenerator", true), ("returnsLoopId", true),
+     ("indexLoadedBefore", true), ("noOtherLoopAfterDraw", true)] := by decide
 
 end Ibx.Tie.FileStore
